@@ -46,10 +46,17 @@ func runC13(c *Ctx, idx int) {
 	}
 	i := strings.Index(pg.HTML, "<body>")
 	src = strings.Replace(src, "</body>", pg.HTML[i+6:len(pg.HTML)-len("</body></html>")]+"</body>", 1)
+	// content that the loggers print: very long image sources (signed CDN URLs, data: URIs)
+	long := strings.Repeat("sig0123456789abcdef", 12+r.Intn(20))
+	src = strings.Replace(src, "</body>", `<p>`+fillerWords(r, 40)+`</p><img src="/cdn/img.png?token=`+long+`" width="640" height="480"><p>`+fillerWords(r, 30)+`</p><img data-src="data:image/gif,`+long+`"><p>`+fillerWords(r, 30)+`</p></body>`, 1)
 	doc := parseHTML(src)
-	page := mustURL(pg.PageURL)
+	pageStr := pg.PageURL
+	if idx%4 == 1 {
+		pageStr = []string{"http://example.com/story/alpha%20beta/caf%C3%A9/page%2F2?x=%41&y=a+b", "http://example.com/a%2Fb/%7Euser/page/2/", "HTTP://EXAMPLE.com:80/Story/../alpha/./page/2?#"}[idx/4%3]
+	}
+	page := mustURL(pageStr)
 	wit := func(extra map[string]any) map[string]any {
-		w := map[string]any{"html": src, "page_url": pg.PageURL}
+		w := map[string]any{"html": src, "page_url": pageStr}
 		for k, v := range extra {
 			w[k] = v
 		}
@@ -122,5 +129,5 @@ func runC13(c *Ctx, idx int) {
 		c.Inc("docs_with_pagination")
 	}
 	c.Sig(kindSig(g.L.Kinds) + "|" + pagShape)
-	c.Sample(func() any { return map[string]any{"case": idx, "page_url": pg.PageURL, "html": trunc(src, 1200), "pagination_shape": pagShape} })
+	c.Sample(func() any { return map[string]any{"case": idx, "page_url": pageStr, "html": trunc(src, 1200), "pagination_shape": pagShape} })
 }
